@@ -26,8 +26,12 @@ def gen(rng, tier):
 def oracle_ok(case, impl, oracle):
     if oracle == "-":
         return False
+    # The property is about DNS names, which are case-insensitive: the verdict compares names
+    # case-insensitively.  (The oracle column spells names as c06_lookup_exact proves the code does, and
+    # the model column is compared with the implementation exactly, so a change of letter case is still
+    # reported — as a correspondence break, not as a violation of the property.)
     a = zg.lower_names(impl).split(" / ")
-    b = oracle.split(" / ")
+    b = zg.lower_names(oracle).split(" / ")
     if len(a) != len(b) or len(a) != NSEG:
         return False
     for x, y in zip(a, b):
@@ -62,6 +66,7 @@ CHECK = {
     "property": "C06",
     "props": "Props/C06.v",
     "theorems": ["c06_lookup_refines", "c06_lookup_addrs_refines", "c06_lookup_all_refines",
+                 "c06_lookup_exact", "c06_lookup_addrs_exact", "c06_lookup_all_exact",
                  "c06_build_total", "c06_unchecked_outside", "c06_req_simple_transitive"],
     "allowed_axioms": [],
     "correspondence": {"impl_bin": "impl_zone", "extract": "Extract/ExZone.v", "driver": "run_zone.ml",
@@ -98,7 +103,7 @@ CHECK = {
 MANIFEST = {
     "level_text": ("Coq theorems (no axioms): for every add history, every name, type and option combination, lookup / "
                    "lookup_addrs / lookup_all of the model of HashMapTreeZone equal an independent RFC 1034 §4.3.2 / RFC 4592 "
-                   "specification evaluated on the flat list of accepted records (names compared case-insensitively); the model "
+                   "specification evaluated on the flat list of accepted records (exactly, including the letter case of reported names); the model "
                    "is tied to the code by a differential run over ~70k names x 40 lookups per quick run, and the extracted "
                    "specification is evaluated on every implementation answer."),
     "level_note": ("Trusted: Coq kernel, extraction, the hand-written model's correspondence to the Rust code (differentially tested), "
